@@ -1263,7 +1263,15 @@ func (p *balloons) Reconfigure(newCfg interface{}) error {
 		return err
 	}
 	log.Info("config updated successfully")
-	if err := p.Sync(p.cch.GetContainers(), p.cch.GetContainers()); err != nil {
+	containers := p.cch.GetContainers()
+	live := make([]cache.Container, 0, len(containers))
+	for _, c := range containers {
+		switch c.GetState() {
+		case cache.ContainerStateCreated, cache.ContainerStateRunning:
+			live = append(live, c)
+		}
+	}
+	if err := p.Sync(live, containers); err != nil {
 		log.Warnf("failed to sync containers: %v", err)
 	}
 	return nil
